@@ -183,23 +183,21 @@ Fixpoint regex_parse (ts : list tok) (acc : list rep) : parsed (list rep) :=
 
 Definition is_nil (s : name) : bool := match s with [] => true | _ => false end.
 
+(* zero or more characters accepted by `mem`, then `k` on what is left (greedy or not
+   does not matter for a yes/no answer) *)
+Fixpoint star_match (k : name -> bool) (mem : Z -> bool) (s : name) : bool :=
+  k s || match s with c :: s' => mem c && star_match k mem s' | [] => false end.
+
 (* is_match of the anchored regex: the pieces must consume the whole name *)
 Fixpoint reps_match (rs : list rep) (s : name) : bool :=
   match rs with
   | [] => is_nil s
   | ROne cs :: rest =>
       match s with c :: s' => cset_mem cs c && reps_match rest s' | [] => false end
-  | RStar cs :: rest =>
-      (fix star (s : name) : bool :=
-         reps_match rest s ||
-         match s with c :: s' => cset_mem cs c && star s' | [] => false end) s
+  | RStar cs :: rest => star_match (reps_match rest) (cset_mem cs) s
   | RPlus cs :: rest =>
       match s with
-      | c :: s' =>
-          cset_mem cs c &&
-          (fix star (s : name) : bool :=
-             reps_match rest s ||
-             match s with c :: s' => cset_mem cs c && star s' | [] => false end) s'
+      | c :: s' => cset_mem cs c && star_match (reps_match rest) (cset_mem cs) s'
       | [] => false
       end
   end.
@@ -306,9 +304,7 @@ Definition ftok_mem (t : ftok) (c : Z) : bool :=
 Fixpoint fn_match (ts : list ftok) (s : name) : bool :=
   match ts with
   | [] => is_nil s
-  | FStar :: rest =>
-      (fix star (s : name) : bool :=
-         fn_match rest s || match s with _ :: s' => star s' | [] => false end) s
+  | FStar :: rest => star_match (fn_match rest) (fun _ => true) s
   | t :: rest =>
       match s with c :: s' => ftok_mem t c && fn_match rest s' | [] => false end
   end.
